@@ -67,6 +67,7 @@ func checkC11(w *World, r *Report) {
 	r.Explanation = "Decides the non-interference clauses of C11 on every path: (R11.1) every function that loads another template and renders it passes to the nested Render a context that is the result of Clone()/NewRenderContext() on every path, never its own context parameter, so nothing the included template sets can land in the includer's scope; (R11.2) in IncludeNode.Render, Clone(), the copy of ctx.context and any parent link are reachable only where the `only` flag is false; (R11.3) every nil-error return that is control-dependent on the ignoreMissing flag is also control-dependent on errors.Is(err, ErrTemplateNotFound); (R11.4) the four map fields of a RenderContext are only ever assigned fresh maps (pool Get / make) or nil, so a derived context never shares a scope map with its parent or with the caller. Not decided: option parsing of the include tag, computed names, what the included template prints."
 	r.Explanation += " Rules added in later rounds: (R11.5) include resolves through Engine.Load; (R11.6) every with-variable is bound; (R11.7) outward walks of the context chain that copy variables never overwrite; (R11.8) every by-name read of a context's own map reaches .parent (or a verified reader) on every miss path. (R11.9) no write to the variable map of a context reached through .parent; (R11.10) without `only` the include's context is linked to the includer's."
 	r.Explanation += " Round 9: (R11.11) tables of parsed expressions only grow in the parser."
+	r.Explanation += " Round 11: (R11.12) text in front of a keyword of the include tag is consumed."
 	r.RuleText = "obligation = one nested Render call / one access-granting construct / one nil return / one store to a scope-map field; non-trivial = those needing dataflow (all but R11.4's fresh stores)"
 	r.Trusted = []string{"Clone()/NewRenderContext() are the only RenderContext constructors (found by role: return renderContextPool.Get())"}
 
